@@ -39,7 +39,7 @@ RFLOOR = 1e-24  # register: the SUT measures the very array the model holds, so 
 def budget(tier):
     if tier == 'quick':
         return {'runs': 6000, 'wall_cap_s': 100, 'per_run_timeout_s': 60, 'shrink_tests': 400}
-    return {'runs': 150000, 'wall_cap_s': 1500, 'per_run_timeout_s': 120, 'shrink_tests': 800}
+    return {'runs': 500000, 'wall_cap_s': 1500, 'per_run_timeout_s': 120, 'shrink_tests': 800}
 
 
 def all_pairs():
